@@ -1,0 +1,117 @@
+//go:build verif
+
+package git
+
+// Contracts for package git (comment-only; build tag verif). Checked by
+// /verif/vcgen. Strings and byte slices are (array, offset, length) triples;
+// every index and slice expression is a proof obligation (C16: "never crash
+// or read outside the input" for all byte strings).
+
+// ---------------------------------------------------------------- tree.go (C16, C02)
+
+//@ func (*TreeIter).NextEntry
+//@   modifies iter.data
+//@   ensures (result2 == nil && !result1) == (len(old(iter.data)) == 0)
+//@   ensures result1 ==> result2 == nil
+//@   ensures result1 ==> len(iter.data) < len(old(iter.data))
+//@   ensures result1 ==> len(iter.data) + len(result0.Name) + 22 <= len(old(iter.data))
+//@   ensures !result1 ==> len(result0.Name) == 0 && result0.Filemode == 0
+
+//@ func (Tree).Size
+//@   pure
+//@   ensures wide(result) == min(wide(len(tree.data)), 4294967295)
+
+// ---------------------------------------------------------------- obj_head_iter.go (C16)
+
+//@ func (*ObjectHeaderIter).HasNext
+//@   pure
+//@   ensures result == (len(iter.data) > 0)
+
+//@ func (*ObjectHeaderIter).Next
+//@   modifies iter.data
+//@   ensures result2 == nil ==> len(iter.data) < len(old(iter.data))
+//@   ensures result2 == nil ==> len(result0) + len(result1) + 2 + len(iter.data) == len(old(iter.data))
+//@   ensures result2 != nil ==> iter.data == old(iter.data)
+
+// ---------------------------------------------------------------- gitconfig.go (C15)
+
+//@ func configKeyMatchesPrefix
+//@   pure
+//@   ensures len(prefix) == 0 ==> result0 && result1 == key
+//@   ensures len(prefix) > 0 && !hasPrefix(key, prefix) ==> !result0
+//@   ensures len(prefix) > 0 && hasPrefix(key, prefix) && prefix[len(prefix)-1] == '.' ==> result0 && result1 == key[len(prefix):]
+//@   ensures len(prefix) > 0 && hasPrefix(key, prefix) && prefix[len(prefix)-1] != '.' && len(key) == len(prefix) ==> result0 && len(result1) == 0
+//@   ensures len(prefix) > 0 && hasPrefix(key, prefix) && prefix[len(prefix)-1] != '.' && len(key) > len(prefix) && key[len(prefix)] == '.' ==> result0 && result1 == key[len(prefix)+1:]
+//@   ensures len(prefix) > 0 && hasPrefix(key, prefix) && prefix[len(prefix)-1] != '.' && len(key) > len(prefix) && key[len(prefix)] != '.' ==> !result0
+//@   ensures !result0 ==> len(result1) == 0
+
+// ---------------------------------------------------------------- ref_filter.go (C06)
+
+//@ func (prefixFilter).Filter
+//@   pure
+//@   ensures result == (hasPrefix(refname, f.prefix) && ((len(f.prefix) > 0 && f.prefix[len(f.prefix)-1] == '/') || len(refname) == len(f.prefix) || refname[len(f.prefix)] == '/'))
+
+// ---------------------------------------------------------------- tree.go, commit.go, tag.go, oid.go, batch_header.go, reference.go: totality (C16)
+// No `requires`: the obligations below (every index, slice bound, division and
+// explicit panic inside these functions) are proved for every byte string.
+
+//@ func ParseTree
+//@   pure
+//@   ensures result1 == nil && result0 != nil
+//@   ensures len(result0.data) == len(data)
+
+//@ func (*Tree).Iter
+//@   pure
+//@   ensures result != nil && fresh(result) && result.data == tree.data
+
+//@ func NewObjectHeaderIter
+//@   pure
+//@   ensures result1 == nil ==> len(result0.data) > 0 && len(result0.data) <= len(data)
+//@   ensures result1 == nil ==> result0.data[len(result0.data)-1] == '\n'
+
+//@ func OIDFromBytes
+//@   pure
+
+//@ func NewOID
+//@   pure
+
+//@ func (OID).MarshalJSON
+//@   pure
+//@   ensures result1 == nil && len(result0) == 42
+
+//@ func ParseCommit
+//@   pure
+//@   loop 0 decreases len(iter.data)
+//@   ensures result1 == nil ==> result0 != nil
+//@   ensures result1 == nil ==> wide(result0.Size) == min(wide(len(data)), 4294967295)
+
+//@ func ParseTag
+//@   pure
+//@   loop 0 decreases len(iter.data)
+//@   ensures result1 == nil ==> result0 != nil
+//@   ensures result1 == nil ==> wide(result0.Size) == min(wide(len(data)), 4294967295)
+
+//@ func ParseBatchHeader
+//@   pure
+
+//@ func ParseReference
+//@   pure
+
+// ---------------------------------------------------------------- git.go (C13, C17) — see below for the full contract
+//@ func (*Repository).GitCommand
+//@   pure
+//@   ensures result != nil
+
+// ---------------------------------------------------------------- gitconfig.go: GetConfig (C15)
+// A-GIT-CONFIG-Z: the output of `git config --list -z` is a concatenation of
+// records "key [LF value] NUL". The step clause says that one loop iteration
+// consumes exactly one record: no NUL lies strictly inside the consumed bytes.
+//@ func (*Repository).GetConfig
+//@   pure
+//@   loop 0 decreases len(out)
+//@   loop 0 step len(out) < len(prev(out))
+//@   loop 0 step forall k int :: 0 <= k && k < len(prev(out)) - len(out) - 1 ==> prev(out)[k] != 0
+//@   loop 0 step prev(out)[len(prev(out)) - len(out) - 1] == 0
+
+//@ property C16: (*TreeIter).NextEntry (Tree).Size ParseTree (*Tree).Iter (*ObjectHeaderIter).HasNext (*ObjectHeaderIter).Next NewObjectHeaderIter OIDFromBytes NewOID (OID).MarshalJSON ParseCommit ParseTag ParseBatchHeader ParseReference
+//@ property C15: configKeyMatchesPrefix (*Repository).GetConfig
